@@ -257,8 +257,14 @@ impl Bundle {
                 proprietary,
             } = rhs;
 
+            // `sequence` and the required lock times are effecting data: an absent value
+            // has a meaning of its own (final sequence number, no lock time requirement),
+            // so two copies that differ there describe different transactions.
             if lhs.prevout_txid != prevout_txid
                 || lhs.prevout_index != prevout_index
+                || lhs.sequence != sequence
+                || lhs.required_time_lock_time != required_time_lock_time
+                || lhs.required_height_lock_time != required_height_lock_time
                 || lhs.value != value
                 || lhs.script_pubkey != script_pubkey
                 || lhs.sighash_type != sighash_type
@@ -266,13 +272,7 @@ impl Bundle {
                 return None;
             }
 
-            if !(merge_optional(&mut lhs.sequence, sequence)
-                && merge_optional(&mut lhs.required_time_lock_time, required_time_lock_time)
-                && merge_optional(
-                    &mut lhs.required_height_lock_time,
-                    required_height_lock_time,
-                )
-                && merge_optional(&mut lhs.script_sig, script_sig)
+            if !(merge_optional(&mut lhs.script_sig, script_sig)
                 && merge_optional(&mut lhs.redeem_script, redeem_script)
                 && merge_map(&mut lhs.partial_signatures, partial_signatures)
                 && merge_map(&mut lhs.bip32_derivation, bip32_derivation)
